@@ -182,7 +182,7 @@ CHECKS["C02"] = {
     "parts": BASE,
     "level": "exploration",
     "technique": "runtime monitor: lexer-based substitution identity (parameterised text with backend literals spliced in == inline text), pairwise agreement of all public rendering entry points incl. WithQuery route and subquery embedding, idempotence/purity checks, and inline-vs-bound execution on SQLite",
-    "rule": "the C01 statement stream (independent seed) for the three dialects plus SQLite-executable statements; per statement: 5 inline + 5 parameterised trait entry points + the inherent forms, rendered twice; WithQuery vs with_cte for statements with CTEs; every third SELECT embedded as a FROM-subquery; SQLite statements executed in both forms; each inlined literal compared (as decoded tokens) with an independent spelling of the bound value (R.literal; temporal values spelled from their components, under a local time zone of +05:30); fault injection: every fifth case is preceded by three renderings a backend refuses (it panics half-way: MySQL FULL OUTER JOIN, SQLite ANY(subquery)) — nothing may be left behind; non-trivial = statement has >= 1 bound value; distinct = distinct (inline text, backend)",
+    "rule": "the C01 statement stream (independent seed) for the three dialects plus SQLite-executable statements; per statement: 5 inline + 5 parameterised trait entry points + the inherent forms, rendered twice; WithQuery vs with_cte for statements with CTEs; every third SELECT embedded as a FROM-subquery; SQLite statements executed in both forms; each inlined literal compared (as decoded tokens) with an independent spelling of the bound value (R.literal; temporal values spelled from their components, under a local time zone of +05:30); R.continue: the rendered statement is built further (one more and_where) and must then render like a never-rendered clone built further the same way; fault injection: every fifth case is preceded by three renderings a backend refuses (it panics half-way: MySQL FULL OUTER JOIN, SQLite ANY(subquery)) — nothing may be left behind; non-trivial = statement has >= 1 bound value; distinct = distinct (inline text, backend)",
     "assumptions": ["engine-executed values restricted to those for which the inline literal and the bound value are the same SQLite value (integers, text, blobs, non-integral dyadic doubles, NULL)"],
     "design_ref": "DESIGN.md §5 C02",
     "level_text": "The relation between the two rendering modes is checked as a relation: the inline text must be byte-identical to the parameterised text with value_to_string literals substituted at the placeholder tokens, every entry point must agree, a second rendering must be identical, the statement must compare equal to its pre-render clone, and on SQLite both forms must return the same rows and leave the same tables.",
